@@ -59,12 +59,15 @@ def scripts(d):
         "die-list-noread": ["USER bob", "PASS pw", "PASV", "@data", "@dstop", f"LIST /{d}", "@cdrop"],
         # a server restricted to a few passive ports, all of them taken by somebody else's listener while this session
         # asks for one (it is turned away with 421); the ports are free again when the next session comes
+        # a listing / download whose data peer does not read: the worker stays suspended in the middle of it
+        "list-noread": ["PASV", "@data", "@dstop", f"LIST /{d}"],
+        "retr-noread": ["EPSV", "@data", "@dstop", f"RETR /{d}/bigf"],
         "die-busy-pasv": ["@busy-on", "PASV", "@busy-off"],
         "die-busy-epsv": ["PWD", "@busy-on", "EPSV", "@busy-off"],
     }
 
 
-NAMES = [n for n in scripts("a") if not n.startswith(("big-", "die-"))]
+NAMES = [n for n in scripts("a") if not n.startswith(("big-", "die-")) and not n.endswith("-noread")]
 
 
 def norm(transcript):
@@ -408,6 +411,45 @@ def _work(item):
     return part
 
 
+def _standstill_child(conn, na, nb, extra, src):
+    import sys
+    sys.path.insert(0, src)
+    _work(("interleave", na, nb, extra))          # (what the sessions see is compared elsewhere; here: does it return)
+    conn.send("done")
+
+
+def standstill(tier):
+    """two sessions whose transfers are suspended half-way (lock-step data connections, or a speed limit) at the same
+    time: if one of them can bring the whole process to a standstill (a lock held across an await), the case never
+    returns - each pair runs in a child process with a wall-clock budget"""
+    import multiprocessing as mp
+    import os
+    import aioftp
+    src = os.path.dirname(os.path.dirname(aioftp.__file__))
+    part = report.Partial()
+    ctx = mp.get_context("fork")
+    budget = 90.0
+    for na, nb in (("list-noread", "type-list"), ("list-noread", "list-noread"), ("retr-noread", "type-list"),
+                   ("list-noread", "download-rest"), ("type-list", "type-list"), ("upload", "type-list")):
+        for extra in ({"window": 1}, {"window": 1, "backend": "async"}, {"throttle": "per-connection"}):
+            parent, child = ctx.Pipe()
+            proc = ctx.Process(target=_standstill_child, args=(child, na, nb, extra, src), daemon=True)
+            proc.start()
+            part.evaluations += 1
+            k = report.fp(["standstill", na, nb, extra])
+            part.states.add(k)
+            part.nontrivial.add(k)
+            if not parent.poll(budget):
+                proc.kill()
+                proc.join()
+                part.violation({"kind": "the-whole-server-stands-still", "pair": [na, nb]},
+                               {"pair": [na, nb], "extra": extra, "budget_s": budget}, replay={"standstill": [na, nb, extra]})
+                continue
+            parent.recv()
+            proc.join()
+    return part
+
+
 def build_items(tier):
     items = []
     pairs = list(itertools.product(NAMES, NAMES))
@@ -463,13 +505,14 @@ def run(tier, seed, t0):
     if seed:
         k = seed % len(items)
         items = items[k:] + items[:k]
-    part = report.merge_all(report.pmap(_work, items))
+    part = report.merge_all(report.pmap(_work, items) + [standstill(tier)])
     if len(part.states) < 2:
         part.infra.append("vacuous: fewer than 2 distinct interleavings")
     bounds = {"scripts": NAMES, "pairs": "all ordered pairs" if tier != "quick" else "all ordered pairs with <= 12 events",
               "interleavings": "all merges of the two event lists (settling between events)",
               "fired": "alternating, no settle between command lines, <= 1 deviation (early/order/batch)",
               "throttled": "8 pairs of multi-second transfers x both orders under a server-wide read/write limit shared by the sessions",
+              "standstill": "pairs with LIST / RETR / STOR suspended half-way in both sessions at once (lock-step window, executor backend, per-connection limits), each in a child process with a 90 s wall-clock budget",
               "busy_passive_ports": "a session turned away with 421 while every configured passive port is busy, then the next session (pools of 1 and 2 ports)",
               "cases": len(items)}
     return report.finish(
@@ -484,6 +527,21 @@ def run(tier, seed, t0):
 def replay(path):
     data = json.loads(open(path).read())
     rp = data["replay"]
+    if "standstill" in rp:
+        import multiprocessing as mp
+        import os
+        import aioftp
+        na, nb, extra = rp["standstill"]
+        ctx = mp.get_context("fork")
+        parent, child = ctx.Pipe()
+        proc = ctx.Process(target=_standstill_child, daemon=True,
+                           args=(child, na, nb, extra, os.path.dirname(os.path.dirname(aioftp.__file__))))
+        proc.start()
+        alive = parent.poll(90.0)
+        if not alive:
+            proc.kill()
+        print(json.dumps({"pair": [na, nb], "extra": extra, "returned_within_90s": bool(alive)}))
+        return 0 if alive else 1
     if "samepath" in rp:
         case = rp["samepath"]
         la, lb = len(scripts("w")[case["a"]]), len(scripts("w")[case["b"]])
